@@ -13,8 +13,13 @@
 //!   finished|notfound|quorumfailed|timeout <qid>
 //!   hangup <caller>                        the caller drops its receiver
 //!   dump                                   canonical view of `pending_get_record`
-//!   merge <content> <content> ...          `handle_split_record_error` on a result map whose `values()` iteration
-//!                                          order is exactly the listed order (choice witness; must be duplicate-free)
+//!   merge <content> <content> ...          `handle_split_record_error` on a result map holding the listed versions
+//!                                          (duplicate-free), listed in ascending order of their key in the map (choice
+//!                                          witness for the content hashes: when the real hashes are in the listed order the
+//!                                          map is keyed by them, as production builds it, else by stand-in hashes that are);
+//!                                          the key being read is the record key of the scratchpad of pad owner 0. The call
+//!                                          is repeated on several independently built maps (each `HashMap` instance iterates
+//!                                          in its own order): all must give the same result
 //! Content tokens: x<n> (no header) | h<c|t|r|s|p><n> (header of kind chunk/transaction/register/scratchpad/
 //!   ..WithPayment + undecodable body) | t<id.id...> (transactions; `3s` = the look-alike of transaction 3: same owner/parents/content/outputs, another signature) | r<base><g|b>[.op...] (signed register, good/bad
 //!   owner signature, ops ascending, op ids >= 6 are signed by a stranger) | s<owner>.<counter>.<variant><g|b> (scratchpad)
@@ -249,6 +254,11 @@ impl Universe {
         self.rev.insert(v.clone(), tok_s.to_string());
         self.by_hash.insert(XorName::from_content(&v), tok_s.to_string());
         Some(v)
+    }
+
+    /// the record key at which the scratchpad of pad owner `o` lives
+    fn pad_key(&self, o: usize) -> RecordKey {
+        Scratchpad::new(self.pad_owners[o].public_key(), 0).network_address().to_record_key()
     }
 
     fn tx_ids(&self, value: &[u8]) -> Option<Vec<usize>> {
@@ -682,11 +692,14 @@ impl H {
                 }
                 None => {
                     out.count("outcome:closed");
-                    // a closed channel is an outcome only when some caller of the query hung up (the handler then
-                    // returns early); with all receivers alive every caller must get a value or a specific error
-                    if !q.callers.iter().any(|x| self.callers[*x].hung) {
-                        out.oracle_fail("one-outcome-each", &hist(), &format!("caller {c}: its sender was dropped without a value or an error after `{op}` although no caller of the query hung up"));
-                    }
+                    // a live caller must get a value or a specific error, never a bare dropped channel — whether or not
+                    // another caller of the same key hung up
+                    let hung_other = q.callers.iter().any(|x| self.callers[*x].hung);
+                    out.oracle_fail(
+                        "value-or-specific-error",
+                        &hist(),
+                        &format!("caller {c}: its sender was dropped without a value or an error after `{op}`{}", if hung_other { " (another caller of the same key had dropped its receiver)" } else { "" }),
+                    );
                 }
             }
         }
@@ -878,33 +891,65 @@ impl H {
         if distinct.len() != toks.len() {
             return "illegal-choice".into();
         }
-        let key = key_of(0);
-        let want: Vec<XorName> = vals.iter().map(|v| XorName::from_content(v)).collect();
-        // a HashMap's iteration order is fixed per instance: build instances until the order is the listed one
-        let mut found = None;
-        for _ in 0..20000 {
+        // the key being read: where the scratchpad of pad owner 0 lives (s0.* are versions of it, s1.*/s2.* are not)
+        let key = self.uni.pad_key(0);
+        // keys of the result map, ascending in the listed order: the real content hashes when they are, else stand-ins
+        let natural: Vec<XorName> = vals.iter().map(|v| XorName::from_content(v)).collect();
+        let keys: Vec<XorName> = if natural.windows(2).all(|w| w[0] < w[1]) {
+            out.count("merge:map-keyed-by-content-hash");
+            natural
+        } else {
+            out.count("merge:map-keyed-by-stand-in-hashes(listed order)");
+            (0..vals.len())
+                .map(|i| {
+                    let mut b = [0u8; 32];
+                    b[0] = i as u8;
+                    b[31] = 0xa5;
+                    XorName(b)
+                })
+                .collect()
+        };
+        out.count(&format!("merge:{}versions", toks.len()));
+        // every HashMap instance has its own hasher keys, hence its own iteration order; entries are also inserted in
+        // different orders. What the function returns must not depend on any of that.
+        let mut outcomes: Vec<(String, Option<Vec<u8>>)> = vec![];
+        let mut orders: HashSet<Vec<XorName>> = HashSet::new();
+        for round in 0..6usize {
             let mut m: HashMap<XorName, (Record, HashSet<PeerId>)> = HashMap::new();
-            for (i, v) in vals.iter().enumerate() {
+            let n = vals.len();
+            for j in 0..n {
+                let i = if round % 2 == 0 { (j + round / 2) % n } else { (n - 1 - j + round / 2) % n };
                 let mut peers = HashSet::new();
                 peers.insert(PeerId::random());
                 if i == 0 {
                     peers.insert(PeerId::random());
                 }
-                m.insert(XorName::from_content(v), (record(key.clone(), v.clone()), peers));
+                m.insert(keys[i], (record(key.clone(), vals[i].clone()), peers));
             }
-            if m.keys().copied().collect::<Vec<_>>() == want {
-                found = Some(m);
-                break;
-            }
+            orders.insert(m.keys().copied().collect());
+            let res = hook::handle_split_record_error(&m, &key);
+            outcomes.push(match &res {
+                Ok(None) => ("none".to_string(), None),
+                Ok(Some(rec)) => {
+                    let d = self.uni.describe(&rec.value, true);
+                    // merged transactions are serialised in the iteration order of a HashSet: compared as a set only
+                    let raw = if d.starts_with('t') { None } else { Some(rec.value.clone()) };
+                    (format!("some {d}"), raw)
+                }
+                Err(_) => ("err".to_string(), None),
+            });
         }
-        let Some(m) = found else { return "?order-unreachable".into() };
-        out.count(&format!("merge:{}versions", toks.len()));
-        let res = hook::handle_split_record_error(&m, &key);
-        let s = match &res {
-            Ok(None) => "none".to_string(),
-            Ok(Some(rec)) => format!("some {}", self.uni.describe(&rec.value, true)),
-            Err(_) => "err".to_string(),
-        };
+        if orders.len() > 1 {
+            out.count("merge:maps-iterated-in-different-orders");
+        }
+        if let Some(other) = outcomes.iter().find(|o| **o != outcomes[0]) {
+            out.oracle_fail(
+                "split-merge-deterministic",
+                line,
+                &format!("the same result map, built twice, was merged into `{}` and into `{}`: the result depends on the iteration order of the HashMap", outcomes[0].0, other.0),
+            );
+        }
+        let s = outcomes[0].0.clone();
         // oracle: the merge is the deterministic function of the versions the property names
         let parsed: Vec<Tok> = toks.iter().filter_map(|t| parse_tok(t)).collect();
         let all_tx = parsed.iter().all(|t| matches!(t, Tok::Txs(_)));
@@ -948,18 +993,19 @@ impl H {
                 }
                 out.count("merge:oracle-registers-none-valid");
             } else {
-                out.count("merge:registers-several-bases(order-dependent)");
+                out.count("merge:registers-several-bases(content hash decides the base)");
             }
         } else if toks.len() >= 2 && all_pad {
-            let best = parsed.iter().filter_map(|t| if let Tok::Pad { counter, good: true, .. } = t { Some(*counter) } else { None }).max();
+            // only validly signed scratchpads that live at the key being read (owner 0) are versions of it
+            let best = parsed.iter().filter_map(|t| if let Tok::Pad { owner: 0, counter, good: true, .. } = t { Some(*counter) } else { None }).max();
             match (best, parse_tok(s.strip_prefix("some ").unwrap_or(""))) {
                 (None, _) => {
                     if s != "none" {
-                        out.oracle_fail("split-merge-is-union", line, &format!("scratchpads: got `{s}` although no version has a valid signature"));
+                        out.oracle_fail("split-merge-is-union", line, &format!("scratchpads: got `{s}` although no version is a validly signed scratchpad of the key"));
                     }
                 }
-                (Some(b), Some(Tok::Pad { counter, good, .. })) => {
-                    if !(good && counter == b && toks.contains(&s.trim_start_matches("some "))) {
+                (Some(b), Some(Tok::Pad { owner, counter, good, .. })) => {
+                    if !(good && owner == 0 && counter == b && toks.contains(&s.trim_start_matches("some "))) {
                         out.oracle_fail("split-merge-is-union", line, &format!("scratchpads: got `{s}`, the highest valid counter is {b}"));
                     }
                 }
@@ -1043,6 +1089,15 @@ fn corpus() -> Vec<Vec<&'static str>> {
         vec!["reset", "get 0 0 n7", "found 0 1 hc0", "found 0 2 hc0", "found 0 3 hc0", "found 0 4 hc0", "found 0 5 hc0", "found 0 6 hc0", "timeout 0"],
         vec!["reset", "get 0 0 n8", "found 0 0 hc0", "found 0 1 hc0", "found 0 2 hc0", "found 0 3 hc0", "found 0 4 hc0", "found 0 5 hc0", "found 0 6 hc0", "dump", "found 0 7 hc0"],
         vec!["reset", "get 0 0 n5", "get 0 1 n5", "found 0 1 hc0", "found 0 2 hc0", "found 0 3 hc0", "found 0 4 hc0", "found 0 4 hc0", "found 0 5 hc0"],
+        // a caller that hung up, at the head / in the middle / at the tail of the queue: the others are answered
+        vec!["reset", "get 0 0 one", "get 0 1 one", "get 0 2 one", "hangup 0", "found 0 1 hc0"],
+        vec!["reset", "get 0 0 n2", "get 0 1 n2", "get 0 2 n2", "hangup 1", "found 0 1 hc0", "found 0 2 hc1", "finished 0"],
+        vec!["reset", "get 0 0 one", "get 0 1 one", "get 0 2 one", "get 0 3 one", "hangup 1", "hangup 3", "timeout 0"],
+        vec!["reset", "get 0 0 n2 t=t0", "get 0 1 n2", "hangup 0", "found 0 1 t1", "found 0 2 t0", "found 0 3 t0"],
+        vec!["reset", "get 0 0 one", "get 0 1 one", "hangup 0", "hangup 1", "notfound 0"],
+        // ties: equal highest counters, several verified bases, mixed kinds — both listings; scratchpads of other owners
+        vec!["reset", "merge s0.2.0g s0.2.1g", "merge s0.2.1g s0.2.0g", "merge r0g.0 r1g.1", "merge r1g.1 r0g.0", "merge t0 r0g.1 s0.1.0g", "merge s0.1.0g r0g.1 t0",
+             "merge s1.3.0g s0.2.0g s0.1.1g", "merge s1.2.0g s2.2.0g", "merge s0.1.0g s1.1.0g", "merge s0.3.0b s1.3.0g s0.1.0g"],
         vec!["reset", "merge t0.1 t1.2 t3", "merge t1 t1.1", "merge s0.1.0g s0.3.1b s0.2.0g", "merge s0.2.0g s0.2.1g", "merge r0g.0 r0b.1 r0g.2.6 r0g.3", "merge r0g.0 r1g.1", "merge hc0 t0.1 t2", "merge x0 t0.1 t2 hr0"],
     ]
 }
@@ -1072,6 +1127,18 @@ fn gen_quorum(rng: &mut Rng) -> String {
         18 => "n1".into(),
         _ => format!("n{}", rng.range(4, 8)),
     }
+}
+
+/// a `merge` line over `toks`: half of the time listed in the order of the real content hashes (the result map is
+/// then keyed by them, as production builds it), else in a random order (keyed by stand-in hashes in that order)
+fn merge_line(h: &mut H, rng: &mut Rng, toks: &[String]) -> String {
+    let mut v: Vec<String> = toks.to_vec();
+    if rng.chance(1, 2) {
+        v.sort_by_key(|t| h.uni.bytes(t).map(|b| XorName::from_content(&b)));
+    } else {
+        rng.shuffle(&mut v);
+    }
+    format!("merge {}", v.join(" "))
 }
 
 fn run_line(h: &mut H, out: &mut Out, line: &str) -> String {
@@ -1120,8 +1187,9 @@ fn gen_saturation(h: &mut H, rng: &mut Rng, out: &mut Out) {
     let r = run_line(h, out, &format!("{kind} 0"));
     if let Some(i) = r.find(" split ") {
         let first = r[i + 7..].split(" ; ").next().unwrap_or("");
-        let toks: Vec<&str> = first.split(',').filter_map(|kv| kv.split('=').next()).collect();
-        run_line(h, out, &format!("merge {}", toks.join(" ")));
+        let toks: Vec<String> = first.split(',').filter_map(|kv| kv.split('=').next()).map(|s| s.to_string()).collect();
+        let l = merge_line(h, rng, &toks);
+        run_line(h, out, &l);
     }
 }
 
@@ -1175,8 +1243,9 @@ fn gen_target(h: &mut H, rng: &mut Rng, out: &mut Out) {
         }
         if let Some(i) = res.find(" split ") {
             let first = res[i + 7..].split(" ; ").next().unwrap_or("");
-            let toks: Vec<&str> = first.split(',').filter_map(|kv| kv.split('=').next()).collect();
-            run_line(h, out, &format!("merge {}", toks.join(" ")));
+            let toks: Vec<String> = first.split(',').filter_map(|kv| kv.split('=').next()).map(|s| s.to_string()).collect();
+            let l = merge_line(h, rng, &toks);
+            run_line(h, out, &l);
         }
     }
     loop {
@@ -1268,9 +1337,9 @@ fn gen_history(h: &mut H, rng: &mut Rng, out: &mut Out) {
         // the split a caller received is what `get_record_from_network` hands to `handle_split_record_error`
         if let Some(i) = r.find(" split ") {
             let first = r[i + 7..].split(" ; ").next().unwrap_or("");
-            let mut toks: Vec<String> = first.split(',').filter_map(|kv| kv.split('=').next()).map(|s| s.to_string()).collect();
-            rng.shuffle(&mut toks);
-            run_line(h, out, &format!("merge {}", toks.join(" ")));
+            let toks: Vec<String> = first.split(',').filter_map(|kv| kv.split('=').next()).map(|s| s.to_string()).collect();
+            let l = merge_line(h, rng, &toks);
+            run_line(h, out, &l);
         }
     }
     run_line(h, out, "dump");
@@ -1285,8 +1354,9 @@ fn gen_history(h: &mut H, rng: &mut Rng, out: &mut Out) {
         }
         if let Some(i) = r.find(" split ") {
             let first = r[i + 7..].split(" ; ").next().unwrap_or("");
-            let toks: Vec<&str> = first.split(',').filter_map(|kv| kv.split('=').next()).collect();
-            run_line(h, out, &format!("merge {}", toks.join(" ")));
+            let toks: Vec<String> = first.split(',').filter_map(|kv| kv.split('=').next()).map(|s| s.to_string()).collect();
+            let l = merge_line(h, rng, &toks);
+            run_line(h, out, &l);
         }
     }
     // stand-alone merges over this family's versions
@@ -1295,13 +1365,15 @@ fn gen_history(h: &mut H, rng: &mut Rng, out: &mut Out) {
         let cands: Vec<&str> = match fam2 {
             2 => vec!["t0", "t1", "t0.1", "t2.3", "t1.0", "t", "ht0", "t4", "t1.1", "t0s", "t1s", "t0.0s", "t1s.1", "t4s"],
             3 => vec!["r0g.0", "r0g.1", "r0g.0.1", "r0b.0", "r0g.2.6", "r1g.0", "r0g", "hr0", "r0g.3.4", "r1g.1.2", "r0b.5"],
-            4 => vec!["s0.1.0g", "s0.2.0g", "s0.2.1g", "s0.3.0b", "s1.2.0g", "hs0", "s0.3.1g", "s1.3.0b"],
+            4 => vec!["s0.1.0g", "s0.2.0g", "s0.2.1g", "s0.3.0b", "s1.2.0g", "hs0", "s0.3.1g", "s1.3.0b", "s0.3.0g", "s2.3.0g", "s0.2.2g"],
             _ => vec!["hc0", "t0", "t1.2", "r0g.0", "s0.1.0g", "x1", "r0g.1", "hp0", "t0.3", "s0.2.0g"],
         };
         let mut v: Vec<&str> = cands.clone();
         rng.shuffle(&mut v);
         v.truncate(rng.range(1, 4) as usize);
-        run_line(h, out, &format!("merge {}", v.join(" ")));
+        let toks: Vec<String> = v.iter().map(|s| s.to_string()).collect();
+        let l = merge_line(h, rng, &toks);
+        run_line(h, out, &l);
     }
 }
 
@@ -1360,7 +1432,7 @@ fn main() {
             exhaustive(&mut h, &mut out);
         }
         h.end_history(&mut out);
-        out.notes.push("callers' receivers are alive unless a `hangup` line says otherwise; after a hangup the handler returns InternalMsgChannelDropped and the remaining callers observe a closed channel (still exactly one outcome)".into());
+        out.notes.push("callers' receivers are alive unless a `hangup` line says otherwise; after a hangup the handler still answers every other caller and then returns InternalMsgChannelDropped".into());
     }
     out.finish();
 }
